@@ -104,12 +104,12 @@ fn main() {
 				}
 				Ok(Err(m)) => {
 					println!("VIOLATION property={} replay={}", prop, args[2]);
-					eprintln!("  {m}");
+					eprintln!("  {}", framework::truncate(&m, 4000));
 					exit(1)
 				}
 				Err(p) => {
 					println!("VIOLATION property={} replay={}", prop, args[2]);
-					eprintln!("  {p}");
+					eprintln!("  {}", framework::truncate(&p, 4000));
 					exit(1)
 				}
 			}
@@ -192,7 +192,7 @@ fn parent(prop: &'static str, tier: Tier, seed: u64) -> i32 {
 		let path = vdir.join("replays").join(format!("{prop}-abort-{}-{seed}-{i}.json", tier.name()));
 		if std::fs::write(&path, serde_json::to_string_pretty(&j).unwrap()).is_ok() {
 			println!("VIOLATION property={} replay={}", prop, path.display());
-			eprintln!("  family={} : {}", j["family"].as_str().unwrap_or("?"), j["message"].as_str().unwrap_or("?"));
+			eprintln!("  family={} : {}", j["family"].as_str().unwrap_or("?"), framework::truncate(j["message"].as_str().unwrap_or("?"), 2000));
 			attributed += 1;
 		}
 		let _ = std::fs::remove_file(tmp);
